@@ -526,7 +526,9 @@ def known_region(p, combo, mode, what):
         return "odpor-crash"
     if red == "odpor" and algo == "BeFS" and missed and uses(p, {RANDOM}):
         return "odpor-befs-random-incomplete"
-    if mode == "B" and missed and ((algo == "BeFS" and red != "none") or red == "odpor"):
+    if red == "sdpor" and what == "checker-crash":
+        return "sdpor-crash"
+    if mode == "B" and missed and (red, algo) not in (("none", "DFS"), ("dpor", "DFS")):
         return "maxerr-%s-%s-incomplete" % (red, algo)
     return None
 
@@ -697,6 +699,8 @@ def run(ctx):
                 else:
                     strict_fail.setdefault((v["what"], v["combo"], v["mode"]), []).append((p, v))
     # shrink the unknown failures (a few), then report them
+    for (what, combo, mode), lst in strict_fail.items():
+        ctx.notes.append("unlisted failure %s %s mode %s on %d program(s), e.g. %s" % (what, "/".join(combo), mode, len(lst), show(lst[0][0])))
     for k, ((what, combo, mode), lst) in enumerate(sorted(strict_fail.items(), key=lambda kv: str(kv[0]))):
         lst.sort(key=lambda pv: sum(len(a) for a in pv[0]["actors"]))
         p, v = lst[0]
